@@ -274,6 +274,14 @@ def run(ctx: Ctx):
         if not (len(rets) == 1 and A.dotted(rets[0].value) == f"self.{BUF}"):
             ctx.fail("PeerConnection.write_buffer", wb.loc(),
                      f"write_buffer must return self.{BUF} unchanged")
+    # queued messages are not cut off by a close that only looks at the buffer
+    from . import c18
+    ctx.include(c18.run, {"C18-R3"}, "C15-R7",
+                "the I/O loop closes a CLOSING connection only when neither bytes in the buffer nor "
+                "messages on their way to it remain (every queued message is handed to the "
+                "transport exactly once)", floor=4,
+                constructs=lambda c: "queued" in c or "task_done" in c or "clean-close" in c)
+    ctx.cur("C15-R6")
     ctx.inst("SOFT_SOCKET_FAILURES")
     try:
         soft = model.fold_name(node, "SOFT_SOCKET_FAILURES")
